@@ -266,7 +266,7 @@ impl Channel {
 }
 
 impl VolatileState {
-//@fn state/structs.rs VolatileState::remove_user_from_channel unit=structs props=C04,C06,C09,C16
+//@fn state/structs.rs VolatileState::remove_user_from_channel unit=structs props=C04,C06,C09,C16,C12
 //@spec
         requires
             old(self).channels@.contains_key(sk(channel)) ==> old(self).channels@[sk(channel)].users@.contains_key(sk(nick)),
@@ -278,7 +278,7 @@ impl VolatileState {
                 ==> chan_wf(final(self).channels@[sk(channel)]), // @prop C04
             final(self).users@.dom() == old(self).users@.dom(), // @prop C06
             forall|n: String| n != sk(nick) && old(self).users@.contains_key(n) ==> final(self).users@[n] == old(self).users@[n], // @prop C06
-            old(self).users@.contains_key(sk(nick)) ==> // @prop C04,C06
+            old(self).users@.contains_key(sk(nick)) ==> // @prop C04,C06,C12
                 final(self).users@[sk(nick)].channels@ == old(self).users@[sk(nick)].channels@.remove(sk(channel))
                 && user_same_except_channels(final(self).users@[sk(nick)], old(self).users@[sk(nick)]),
             final(self).wallops_users == old(self).wallops_users && final(self).invisible_users_count == old(self).invisible_users_count // @prop C06
